@@ -13,6 +13,7 @@ package c14
 import (
 	"fmt"
 	"math"
+	"os"
 	"sort"
 	"strings"
 	"time"
@@ -41,9 +42,12 @@ func Run(tier string, seed uint64, modelPath, repo string, out *res.Result) erro
 	}
 	defer m.Close()
 	r := rng.New(seed)
-	nLinks, nBk, nDocs := 4000, 6000, 3000
+	nLinks, nBk, nDocs := 4000, 6000, 1600
 	if tier == "thorough" {
 		nLinks, nBk, nDocs = 150000, 250000, 100000
+	}
+	if tier == "smoke" { // builder's iteration aid
+		nLinks, nBk, nDocs = 200, 200, 500
 	}
 	out.Rule = "L1: random page lists (<=5 pages, anchor names from a pool of 5 incl. the empty name, internal/external/attachment links incl. dangling) through resolveLinks, " +
 		"random bookmark-level lists (length<=12, levels 1..9 jumping both ways, 3% with levels<=0) through makeBookmarkTree, compared with the Lean models and judged; " +
@@ -51,12 +55,15 @@ func Run(tier string, seed uint64, modelPath, repo string, out *res.Result) erro
 		"radii, outlines, text decorations, tables, lists, columns, inline SVG with unique fill colours, page breaks, bleed/marks, zoom 0.5/1/2) written onto a recording backend; " +
 		"the call sequence is judged by the Lean monitor; non-trivial = L1 case with >=2 entries / document with >=40 backend calls; distinct by input text"
 	render.Quiet()
+	t0 := time.Now()
 	if err := runLinksL1(m, r.Sub(), nLinks, out); err != nil {
 		return err
 	}
+	t1 := time.Now()
 	if err := runBookmarksL1(m, r.Sub(), nBk, out); err != nil {
 		return err
 	}
+	t2 := time.Now()
 	fonts, err := render.NewFonts(repo)
 	if err != nil {
 		return err
@@ -65,6 +72,8 @@ func Run(tier string, seed uint64, modelPath, repo string, out *res.Result) erro
 		return err
 	}
 	out.ModelCalls = m.N
+	out.Notes = append(out.Notes, fmt.Sprintf("timing: L1 resolveLinks %d cases %.1fs, L1 makeBookmarkTree %d cases %.1fs, L2 %d documents %.1fs",
+		nLinks, t1.Sub(t0).Seconds(), nBk, t2.Sub(t1).Seconds(), nDocs, time.Since(t2).Seconds()))
 	return nil
 }
 
@@ -422,12 +431,58 @@ type crashNote struct {
 
 func runDocs(m *mp.Model, r *rng.R, n int, fonts text.FontConfiguration, out *res.Result) error {
 	crashes := map[string]*crashNote{}
+	shrunk := map[string]int{}
+	printed := map[string]bool{}
 	for i := 0; i < n; i++ {
 		cr := r.Sub()
 		caseSeed := cr.Seed()
 		spec := genDoc(cr)
-		if err := oneDoc(m, spec, caseSeed, fonts, out, crashes); err != nil {
+		fs, err := check(m, spec, caseSeed, fonts, out, crashes)
+		if err != nil {
 			return err
+		}
+		for _, f := range fs {
+			cls := f.Kind + "|" + f.Op + "|" + f.Key
+			// classes attributed to one SVG node by its colour are specific as they are: minimise the first two;
+			// the others are minimised (up to 25 per class) so that known-finding patterns see the culprit alone
+			lim := 25
+			if strings.Contains(f.Key, ":svg:") {
+				lim = 2
+			}
+			if shrunk[cls] < lim {
+				// minimise the first documents of every class (ddmin over the document text, same class must persist)
+				shrunk[cls]++
+				small := shrink(spec.HTML, 250, func(h string) bool {
+					s2 := *spec
+					s2.HTML = h
+					gs, err := check(m, &s2, caseSeed, fonts, nil, nil)
+					if err != nil {
+						return false
+					}
+					for _, g := range gs {
+						if g.Kind == f.Kind && g.Op == f.Op && g.Key == f.Key {
+							return true
+						}
+					}
+					return false
+				})
+				s2 := *spec
+				s2.HTML = small
+				if gs, err := check(m, &s2, caseSeed, fonts, nil, nil); err == nil {
+					for _, g := range gs {
+						if g.Kind == f.Kind && g.Op == f.Op && g.Key == f.Key {
+							g.Reason += fmt.Sprintf(" [minimised from a %d-byte document]", len(spec.HTML))
+							f = g
+							break
+						}
+					}
+				}
+			}
+			if os.Getenv("VERIF_C14_DEBUG") != "" && shrunk[cls] <= 2 && !printed[cls+fmt.Sprint(shrunk[cls])] {
+				printed[cls+fmt.Sprint(shrunk[cls])] = true
+				fmt.Fprintf(os.Stderr, "FINDING %s | %s | %s\n  %s\n  %v\n", f.Kind, f.Op, f.Key, f.Reason, f.Input)
+			}
+			out.Add(f)
 		}
 		if i < 2 {
 			out.Sample(map[string]interface{}{"html": spec.HTML, "zoom": spec.Zoom, "seed": caseSeed})
@@ -459,7 +514,15 @@ func renderDoc(spec *docSpec, fonts text.FontConfiguration, d time.Duration) (*r
 	return doc, rec, oc, rerr
 }
 
-func oneDoc(m *mp.Model, spec *docSpec, caseSeed uint64, fonts text.FontConfiguration, out *res.Result, crashes map[string]*crashNote) error {
+// check renders one document and evaluates every judge and correspondence on it.  out == nil: no
+// statistics are recorded (used while shrinking).
+func check(m *mp.Model, spec *docSpec, caseSeed uint64, fonts text.FontConfiguration, out *res.Result, crashes map[string]*crashNote) ([]res.Finding, error) {
+	var fs []res.Finding
+	hit := func(b string) {
+		if out != nil {
+			out.Hit(b)
+		}
+	}
 	doc, rec, oc, rerr := renderDoc(spec, fonts, 20*time.Second)
 	if oc.Timeout {
 		// other builders load the machine: confirm alone with a longer budget
@@ -472,7 +535,10 @@ func oneDoc(m *mp.Model, spec *docSpec, caseSeed uint64, fonts text.FontConfigur
 		} else if rerr != nil {
 			site = "error:" + rerr.Error()
 		}
-		out.Hit("crash-skipped")
+		hit("crash-skipped")
+		if crashes == nil {
+			return nil, nil
+		}
 		c := crashes[site]
 		if c == nil {
 			ex := spec.HTML
@@ -483,28 +549,31 @@ func oneDoc(m *mp.Model, spec *docSpec, caseSeed uint64, fonts text.FontConfigur
 			crashes[site] = c
 		}
 		c.n++
-		return nil
+		return nil, nil
 	}
-	out.Count(spec.HTML, len(rec.Events) >= 40)
-	for _, f := range uniq(spec.Features) {
-		out.Hit("doc:" + f)
+	if out != nil {
+		out.Count(spec.HTML, len(rec.Events) >= 40)
+		for _, f := range uniq(spec.Features) {
+			out.Hit("doc:" + f)
+		}
+		out.Hit(fmt.Sprintf("doc:pages=%d", minInt(len(doc.Pages), 6)))
+		out.Hit(fmt.Sprintf("doc:zoom=%v", spec.Zoom))
+		out.Hit(fmt.Sprintf("doc:calls<=%d", bucket(len(rec.Events))))
 	}
-	out.Hit(fmt.Sprintf("doc:pages=%d", minInt(len(doc.Pages), 6)))
-	out.Hit(fmt.Sprintf("doc:zoom=%v", spec.Zoom))
 	add := func(kind, op, key, reason string, impl, model interface{}) {
-		out.Add(res.Finding{Kind: kind, Op: op, Input: map[string]interface{}{"html": spec.HTML, "zoom": spec.Zoom}, Impl: impl, Model: model, Reason: reason, Key: key, Seed: caseSeed})
+		fs = append(fs, res.Finding{Kind: kind, Op: op, Input: map[string]interface{}{"html": spec.HTML, "zoom": spec.Zoom}, Impl: impl, Model: model, Reason: reason, Key: key, Seed: caseSeed})
 	}
 
 	// ---- the call sequence, judged by the Lean monitor
 	ans, err := m.Ask(sx.L(sx.A("proto"), sx.I(len(doc.Pages)), rec.Encode()))
 	if err != nil {
-		return err
+		return nil, err
 	}
 	switch ans.Head() {
 	case "accept":
-		out.Hit("proto:accept")
+		hit("proto:accept")
 	case "reject":
-		out.Hit("proto:reject")
+		hit("proto:reject")
 		seen := map[string]bool{}
 		for _, v := range ans.Xs[1].Xs {
 			cls, key, why := classify(v, rec, spec)
@@ -518,7 +587,7 @@ func oneDoc(m *mp.Model, spec *docSpec, caseSeed uint64, fonts text.FontConfigur
 			add("judge", "judge:proto:unexplained", "", "monitor rejects without a diagnosis", nil, nil)
 		}
 	default:
-		return fmt.Errorf("monitor: %s", ans)
+		return nil, fmt.Errorf("monitor: %s", ans)
 	}
 
 	// ---- every number finite
@@ -628,10 +697,10 @@ func oneDoc(m *mp.Model, spec *docSpec, caseSeed uint64, fonts text.FontConfigur
 	}
 	mans, err := m.Ask(sx.L(sx.A("links"), listX(candX), listX(linkX_)))
 	if err != nil {
-		return err
+		return nil, err
 	}
 	if mans.Head() != "ok" {
-		return fmt.Errorf("links model: %s", mans)
+		return nil, fmt.Errorf("links model: %s", mans)
 	}
 	implA, modelA := parsePairsPages(listX(outAX)), parsePairsPages(mans.Xs[1])
 	if canonAnchors(implA) != canonAnchors(modelA) {
@@ -642,10 +711,10 @@ func oneDoc(m *mp.Model, spec *docSpec, caseSeed uint64, fonts text.FontConfigur
 	}
 	jans, err := m.Ask(sx.L(sx.A("links-judge"), listX(candX), listX(linkX_), listX(outAX), listX(outLX)))
 	if err != nil {
-		return err
+		return nil, err
 	}
 	if jans.Head() != "ok" {
-		return fmt.Errorf("links judge: %s", jans)
+		return nil, fmt.Errorf("links judge: %s", jans)
 	}
 	if jans.Xs[1].S != "1" {
 		add("judge", "judge:anchors", "", "an anchor is not defined exactly once by the first element with that id", listX(outAX).String(), listX(candX).String())
@@ -654,10 +723,10 @@ func oneDoc(m *mp.Model, spec *docSpec, caseSeed uint64, fonts text.FontConfigur
 		add("judge", "judge:links", "", "emitted internal links / dropped links inconsistent with the defined anchors", listX(outLX).String(), listX(linkX_).String())
 	}
 	if nInternal > 0 {
-		out.Hit("doc:has-internal-link")
+		hit("doc:has-internal-link")
 	}
 	if nDangling > 0 {
-		out.Hit("doc:has-dropped-link")
+		hit("doc:has-dropped-link")
 	}
 
 	// ---- bookmarks
@@ -683,10 +752,10 @@ func oneDoc(m *mp.Model, spec *docSpec, caseSeed uint64, fonts text.FontConfigur
 		}
 	}
 	if len(levels) > 0 {
-		out.Hit("doc:has-bookmarks")
+		hit("doc:has-bookmarks")
 		bans, err := m.Ask(sx.L(append([]sx.X{sx.A("bookmarks")}, intsX(levels)...)...))
 		if err != nil {
-			return err
+			return nil, err
 		}
 		impl := sx.L(append([]sx.X{sx.A("ok")}, intsX(depths)...)...).String()
 		if bans.String() != impl || !same {
@@ -694,7 +763,7 @@ func oneDoc(m *mp.Model, spec *docSpec, caseSeed uint64, fonts text.FontConfigur
 		}
 		bj, err := m.Ask(sx.L(sx.A("bookmarks-judge"), sx.L(intsX(levels)...), sx.L(intsX(depths)...)))
 		if err != nil {
-			return err
+			return nil, err
 		}
 		if bj.Head() != "ok" || bj.Xs[1].S != "1" || !same {
 			add("judge", "judge:bookmarks", "", "outline inconsistent with the bookmark levels", impl, fmt.Sprint(levels))
@@ -711,7 +780,7 @@ func oneDoc(m *mp.Model, spec *docSpec, caseSeed uint64, fonts text.FontConfigur
 			add("judge", "judge:metadata", k, fmt.Sprintf("%s: backend received %q (%d calls), document says %q", k, rec.Meta[k], rec.MetaCalls[k], want[k]), nil, nil)
 		}
 	}
-	return nil
+	return fs, nil
 }
 
 // classify explains one monitor diagnosis: (class, key, reason).  For an empty-path Paint/Clip the
@@ -730,27 +799,77 @@ func classify(v sx.X, rec *Rec, spec *docSpec) (string, string, string) {
 	ctx := contextOf(rec, idx)
 	why := fmt.Sprintf("%s: call #%d %s; preceding calls on the canvas: %s", cls, idx, e.String(), ctx)
 	switch cls {
-	case "empty-path":
+	case "empty-path", "no-current-point":
 		// the last fill colour set at this stack level of this canvas before the call
+		// (calls of nested OnNewStack closures are skipped; the search stops at the enclosing Save)
 		depth := e.Depth
+		skipping := false
 		for i := idx - 1; i >= 0; i-- {
 			p := rec.Events[i]
 			if p.Canvas != e.Canvas {
 				continue
 			}
-			if p.Depth < depth || (p.Depth == depth && p.Op == "Save") {
+			if p.Depth < depth {
 				break
 			}
-			if p.Depth == depth && p.Op == "SetColorRgba" && p.S == "fill" && len(p.F) == 4 {
+			if p.Depth == depth && p.Op == "Restore" {
+				skipping = true
+				continue
+			}
+			if p.Depth == depth && p.Op == "Save" {
+				skipping = false
+				continue
+			}
+			if skipping || p.Depth != depth {
+				continue
+			}
+			if p.Op == "SetColorRgba" && p.S == "fill" && len(p.F) == 4 {
 				col := [3]uint8{uint8(math.Round(p.F[0] * 255)), uint8(math.Round(p.F[1] * 255)), uint8(math.Round(p.F[2] * 255))}
-				if k, ok := spec.SvgKinds[col]; ok {
+				if k, ok := spec.SvgKinds[col]; ok && p.F[3] == 1 {
 					return cls, e.Op + ":svg:" + k, why
 				}
+				if spec.Marks && p.F[0] == 0 && p.F[1] == 0 && p.F[2] == 0 && p.F[3] == 0 {
+					// the crop/cross marks template of drawBackground: <svg fill="transparent" stroke="black">
+					return cls, e.Op + ":svg:svg", why
+				}
+				break
 			}
 		}
-		return cls, e.Op + ":" + shortCtx(rec, idx), why
+		return cls, e.Op + ":" + levelCtx(rec, idx), why
 	}
-	return cls, e.Op + ":" + shortCtx(rec, idx), why
+	return cls, e.Op + ":" + levelCtx(rec, idx), why
+}
+
+// levelCtx: the previous call on the canvas at the same OnNewStack level (nested closures skipped),
+// or "stack-start" when the call is the first of its closure.
+func levelCtx(rec *Rec, idx int) string {
+	e := rec.Events[idx]
+	skipping := false
+	for i := idx - 1; i >= 0; i-- {
+		p := rec.Events[i]
+		if p.Canvas != e.Canvas {
+			continue
+		}
+		if p.Depth < e.Depth {
+			break
+		}
+		if p.Depth == e.Depth && p.Op == "Restore" {
+			skipping = true
+			continue
+		}
+		if p.Depth == e.Depth && p.Op == "Save" {
+			if skipping {
+				skipping = false
+				return "after:closure"
+			}
+			continue
+		}
+		if skipping || p.Depth != e.Depth {
+			continue
+		}
+		return "after:" + p.Op
+	}
+	return "stack-start"
 }
 
 func contextOf(rec *Rec, idx int) string {
@@ -789,9 +908,32 @@ func uniq(xs []string) []string {
 	return out
 }
 
+func bucket(n int) int {
+	for _, b := range []int{50, 100, 200, 400, 800, 1600, 3200} {
+		if n <= b {
+			return b
+		}
+	}
+	return 1000000
+}
+
 func minInt(a, b int) int {
 	if a < b {
 		return a
 	}
 	return b
+}
+
+// Debug renders one document and returns its trace (used by cmd/c14dbg).
+func Debug(html string, zoom float64, repo string) string {
+	render.Quiet()
+	fonts, err := render.NewFonts(repo)
+	if err != nil {
+		return err.Error()
+	}
+	_, rec, oc, rerr := renderDoc(&docSpec{HTML: html, Zoom: zoom}, fonts, 60*time.Second)
+	if !oc.OK() || rerr != nil {
+		return fmt.Sprint("CRASH ", oc.Panic, " ", oc.Site, " ", oc.Timeout, " ", rerr, "\n", oc.Stack)
+	}
+	return rec.Trace() + fmt.Sprintln("non-finite:", rec.NonFinite) + fmt.Sprintln("monitor input:", rec.Encode().String())
 }
